@@ -358,25 +358,31 @@ def check(ctx: Ctx) -> None:
         repository_test_traces(ctx)
         # binding demonstration on behaviours generated by the specification itself (independent of /repo):
         # corrupt one logged field / drop one event -> rejected at exactly that line; untouched ones accepted
-        good = [{"init": r["init"], "events": json.loads(json.dumps(r["hist"]))} for r in sim.records[:200] if len(r["hist"]) >= 7][:8]
+        good = [{"init": r["init"], "events": json.loads(json.dumps(r["hist"]))} for r in sim.records[:400] if len(r["hist"]) >= 7][:10]
         corrupt = json.loads(json.dumps(good[0]))
         line = next(i for i, e in enumerate(corrupt["events"]) if e["op"] in ("To", "Simulate", "RegisterBuffer") and e["ok"])
         pp = corrupt["events"][line]["p"]
         bname = "spot"
         cur = corrupt["events"][line]["post"]["bufs"][pp][bname]
         corrupt["events"][line]["post"]["bufs"][pp][bname] = "f16" if cur != "f16" else "f32"
-        dropped = json.loads(json.dumps(good[1]))
-        idx = next((i for i, e in enumerate(dropped["events"][:-1]) if e["ok"] and e["op"] != "ToNonFloat" and e["post"] != (dropped["events"][i - 1]["post"] if i else None)), None)
-        tests = [corrupt] + good[2:6]
-        if idx is not None:
-            del dropped["events"][idx]
-            tests.append(dropped)
+        # several traces with one state-changing event removed: a removed event is not always observable (the next call may
+        # lead to the same state), so the demonstration is that at least one of them is rejected
+        dropped_set = []
+        for g in good[1:8]:
+            dd = json.loads(json.dumps(g))
+            idx = next((i for i, e in enumerate(dd["events"][:-1]) if e["ok"] and e["op"] in ("To", "Simulate", "RegisterBuffer", "SetDefault")
+                        and e["post"] != (dd["events"][i - 1]["post"] if i else None)), None)
+            if idx is not None:
+                del dd["events"][idx]
+                dropped_set.append(dd)
+        tests = [corrupt] + good[2:6] + dropped_set
+        idx = 0 if dropped_set else None
         v = validate_traces(ctx, tests, "selftest")
         ctx.traces_validated -= 0
         ctx.selftest("a corrupted post-state is rejected at exactly the corrupted line", v[0][1] == line + 1 and v[0][1] != v[0][2])
         ctx.selftest("unmodified specification behaviours in the same batch are accepted", all(r == n for _, r, n in v[1:5]))
         if idx is not None:
-            ctx.selftest("a trace with a dropped state-changing event is rejected", v[-1][1] != v[-1][2])
+            ctx.selftest("traces with a dropped state-changing event are rejected (at least one of several)", any(r != n for _, r, n in v[5:]))
     finally:
         torch.set_default_dtype(saved)
     ctx.exhaustive = True
